@@ -23,6 +23,13 @@ def fusion_key(tin, tout, i):
     """classify the first difference of two token lists as the fusion of two input tokens"""
     def txt(t):
         return "".join(chr(c) for c in t[1])
+    if i < len(tin) and i < len(tout):
+        # an encoding prefix split off its literal (`u8"x"` -> `u8 "x"`): the tokenizer knows the prefix for C/C++ only
+        a0, o0 = txt(tin[i]), txt(tout[i])
+        for pre in ("u8", "u", "U", "L"):
+            if a0.startswith(pre + '"') or a0.startswith(pre + "'") or a0.startswith(pre + 'R"'):
+                if o0 == pre:
+                    return {"kind": "string-prefix-split", "prefix": pre}
     if i + 1 < len(tin):
         a, b = txt(tin[i]), txt(tin[i + 1])
         if a == "/" and b[:1] in ("*", "/"):
@@ -72,8 +79,8 @@ def build_jobs(ctx, sc, exe, thorough, want_class=("ws",)):
     tpos = optreg.names("tokenpos")
     nprog = 400 if thorough else 70
     for i in range(nprog):
-        lang = rng.choice(["C", "C", "CPP", "CPP", "JAVA"])
-        lines, txt = gen.program(rng, lang, stats=ctx.hist)
+        lang = rng.choice(["C", "C", "CPP", "CPP", "JAVA", "OC"])
+        lines, txt = gen.program(rng, "C" if lang == "OC" else lang, stats=ctx.hist)       # plain C text read as Objective-C
         p = sc.write(txt, EXT[lang])
         for k in range(4 if thorough else 2):
             opts = {}
